@@ -6,6 +6,8 @@ import Dmn.Lemmas.EvalNoPanic
 import Dmn.Lemmas.TemporalMachineIdeal
 import Dmn.Model.ScopeCell
 import Dmn.Lemmas.ScopeCell
+import Dmn.Lemmas.StringIndex
+import Dmn.Lemmas.LongestName
 
 /-!
 # C05 (parser side) — FEEL parsing is total
@@ -417,3 +419,172 @@ example : searchDeepIn [[("a", .ctx [("b", .num 1)])]] ["a", "c"] = none := by d
 
 end Dmn.ScopeCell
 
+/-! ## `Scope` at value level
+
+The same model answers with values (the correspondence family `scope-ops` compares every answer of the
+real `Scope` with it): what `get_entry` finds after `set_entry`, what `pop` returns after `push`, that a
+path of one name is a plain lookup, that rebinding one name leaves the others alone. -/
+
+namespace Dmn.ScopeCell
+
+/-- `get_entry` right after `set_entry` of the same name returns the value set — on any stack that is
+not empty (on the empty stack `set_entry` does nothing), whatever the top context held before. -/
+theorem scope_get_after_set (c : Cell) (h : c.borrowed = false) (hne : c.contexts ≠ []) (k : String) (v : Val) :
+    ∃ c1, exec c (.setEntry k v) = .ok .unit c1 ∧ ∃ c2, exec c1 (.getEntry k) = .ok (.val (some v)) c2 := by
+  obtain ⟨top, below, hrev⟩ : ∃ top below, c.contexts.reverse = top :: below := by
+    cases hr : c.contexts.reverse with
+    | nil => exact absurd (List.reverse_eq_nil_iff.mp hr) hne
+    | cons t b => exact ⟨t, b, rfl⟩
+  refine ⟨{ contexts := modifyLast c.contexts (fun top => setIn top k v), borrowed := false },
+    by rw [exec]; exact withBorrow_ok c h _,
+    { contexts := modifyLast c.contexts (fun top => setIn top k v), borrowed := false }, ?_⟩
+  rw [exec, withBorrow_ok _ rfl]
+  simp only [modifyLast, hrev, getEntryIn, List.reverse_reverse, List.findSome?_cons, lookup_setIn]
+
+example : ({ contexts := [[]] } : Cell).contexts ≠ [] := by decide
+
+/-- `pop` right after `push` returns the context pushed and leaves the stack as it was. -/
+theorem scope_pop_after_push (c : Cell) (h : c.borrowed = false) (ctx : Ctx) :
+    ∃ c1, exec c (.push ctx) = .ok .unit c1 ∧
+      exec c1 .pop = .ok (.ctx (some ctx)) { contexts := c.contexts, borrowed := false } := by
+  refine ⟨_, by rw [exec]; exact withBorrow_ok c h _, ?_⟩
+  rw [exec, withBorrow_ok _ rfl]
+  simp only [List.getLast?_append, List.getLast?_singleton, Option.some_or, List.dropLast_concat]
+
+/-- `search_deep` with a path of one name is `get_entry` of that name, on every stack. -/
+theorem scope_search_deep_single (stack : List Ctx) (k : String) : searchDeepIn stack [k] = getEntryIn stack k := by
+  unfold searchDeepIn getEntryIn
+  exact find_then_lookup stack.reverse k
+
+/-- The order of the entries of a context means nothing to a lookup once each name is bound once:
+`set_entry` on a bound name replaces the value where it stands (`BTreeMap::insert`) and binds a new
+name otherwise; in both cases the other names keep their values. -/
+theorem scope_set_keeps_others (es : Ctx) (k k' : String) (v : Val) (hk : k' ≠ k) :
+    lookup (setIn es k v) k' = lookup es k' := lookup_setIn_other es k k' v hk
+
+example : ("b" : String) ≠ "a" := by decide
+
+end Dmn.ScopeCell
+
+/-! ## The string built-ins: machine-integer and byte index arithmetic
+
+Model: Dmn/Model/StringIndex.lean — `substring`, `substring before`, `substring after`, `split`,
+`replace` of `feel-evaluator/src/bifs/core.rs` with `usize` / `isize` as explicit ranges (every `+`, `-`,
+`as`, `checked_add` a step, both integer modes) and strings as UTF-8 bytes (a slice that does not lie on
+character boundaries is a panic, as in `core::str`).  `Op.wellTyped` says only that the operands are
+values of the Rust types: any `isize` start position (or none), any `usize` length (or none), a string
+of at most `isize::MAX` bytes; for the operations that take the matches as given, that the matches are as
+the `regex` crate reports them (`matchesOk`). -/
+
+namespace Dmn.StringIndex
+open Dmn Dmn.TemporalMachine
+
+/-- `string_index_no_panic`: in both integer modes, for every string, every needle / delimiter /
+pattern / replacement, every start position and length of the machine types (and the `None` of the
+conversions), no statement of the string built-ins panics: no integer overflow, no slice beyond the
+end, no slice off a character boundary. -/
+theorem string_index_no_panic (m : IntMode) (op : Op) (hw : op.wellTyped = true) (s : String) :
+    run m op ≠ .panic s := by
+  obtain ⟨r, hr⟩ := run_ok m op hw
+  rw [hr]
+  intro h
+  cases h
+
+-- non-vacuity: the ends of `isize` and `usize` are well typed and answer null; a needle of one 4-byte
+-- character inside a string of 1-, 2-, 3- and 4-byte characters is found on a boundary
+example : (Op.substring [97, 233, 8364, 128512] (some (-9223372036854775808)) (.count (some 18446744073709551615))).wellTyped = true ∧
+    run .checked (.substring [97, 233, 8364, 128512] (some (-9223372036854775808)) (.count (some 18446744073709551615))) = .ok .null ∧
+    run .checked (.substring [97, 233, 8364, 128512] (some 9223372036854775807) .toEnd) = .ok .null ∧
+    run .checked (.substring [97, 233, 8364, 128512] (some (-3)) (.count (some 2))) = .ok (.chars [233, 8364]) ∧
+    run .checked (.after [97, 233, 8364, 128512, 98] [128512]) = .ok (.utf8 [98]) ∧
+    run .checked (.before [97, 233, 8364, 128512, 98] [8364]) = .ok (.utf8 [97, 195, 169]) ∧
+    run .checked (.split [97, 233, 98, 233, 233] [233]) = .ok (.pieces [[97], [98], [], []]) := by
+  refine ⟨?_, ?_, ?_, ?_, ?_, ?_, ?_⟩ <;> rfl
+
+/-- `string_index_off_boundary_panics` (sensitivity): the model does have the panic sites — a match that
+ends inside a character (here: after the first byte of `é`) makes the slices of `split` and `replace`
+panic, and so does a match that starts before the previous one ended. -/
+theorem string_index_off_boundary_panics (m : IntMode) :
+    run m (.splitAt [233, 97] [(0, 1)]) = .panic site ∧
+    run m (.replaceAt [233, 97] [(0, 1)] [[]]) = .panic site ∧
+    run m (.splitAt [97, 98, 99] [(0, 2), (1, 3)]) = .panic site := by
+  refine ⟨?_, ?_, ?_⟩ <;> rfl
+
+/-- `string_index_substring_eq_spec`: for every string, every `isize` start position and every `usize`
+length of at least 1 (a length below 1 is null before any index is computed), `substring` on the machine
+types is, in both modes, the specification of C08 (`Spec.substringChars`: positions `1 … len` from the
+start, `-1 … -len` from the end, null when fewer characters remain) — and so without a length. -/
+theorem string_index_substring_eq_spec (m : IntMode) (cs : List Char) (st c : Int)
+    (hst : tIsize.fits st = true) (hc : tUsize.fits c = true) (h1 : 1 ≤ c)
+    (hn : (cs.length : Int) ≤ allocMax) :
+    substring m cs (some st) (.count (some c)) = .ok (Spec.substringChars cs st (some c.toNat)) ∧
+    substring m cs (some st) .toEnd = .ok (Spec.substringChars cs st none) := by
+  constructor
+  · simp only [substring]
+    rw [substringAt_eq_ideal m cs st (some c) hst (by intro c' h; cases h; exact hc) hn,
+      substringIdeal_eq_spec cs st (some c) (by intro c' h; cases h; exact h1)]
+    rfl
+  · simp only [substring]
+    rw [substringAt_eq_ideal m cs st none hst (by intro c' h; cases h) hn,
+      substringIdeal_eq_spec cs st none (by intro c' h; cases h)]
+    rfl
+
+-- non-vacuity
+example : tIsize.fits (-2) = true ∧ tUsize.fits 2 = true ∧ ((['a', 'b', 'c'].length : Nat) : Int) ≤ allocMax := by decide
+
+/-- `string_index_results_are_strings`: what `substring before` returns is the encoding of the
+characters before some character index, what `substring after` returns of those after one: the byte
+slices are well-formed strings again. -/
+theorem string_index_results_are_strings (m : IntMode) (cs pat : List Nat)
+    (hlen : ((bytes cs).length : Int) ≤ allocMax) :
+    (∃ k, substringBefore cs pat = .ok (bytes (cs.take k))) ∧
+    (∃ k, substringAfter m cs pat = .ok (bytes (cs.drop k))) :=
+  ⟨substringBefore_ok cs pat, substringAfter_ok m cs pat hlen⟩
+
+example : (([97, 233, 8364, 128512] : List Nat).length : Int) ≤ allocMax := by decide
+
+/-- `string_index_literal_matches_ok`: the occurrences of a pattern that denotes itself — every place
+where its bytes occur, taken from left to right without overlap — are matches as `matchesOk` demands:
+they start and end on character boundaries of the string, whatever the string and the pattern (UTF-8 is
+self-synchronising: proved here, not assumed). -/
+theorem string_index_literal_matches_ok (cs pat : List Nat) (fuel : Nat) :
+    matchesOk cs 0 (litMatches (bytes pat) fuel 0 (bytes cs)) = true := by
+  have h := litMatches_ok pat cs fuel 0 (isOff_zero cs)
+  rw [List.drop_zero] at h
+  exact h
+
+end Dmn.StringIndex
+
+/-! ## `parse_longest_name` (parser.rs:73)
+
+Model: Dmn/Model/LongestName.lean — the lexer over an empty name table with the start token
+`StartTextualExpression`, its answers given to the driver loop over the regenerated tables; the reduce
+actions are any oracle `act`, and whatever they do to the lexer's flags between two calls is any
+function `fb`. -/
+
+namespace Dmn.LongestName
+open Dmn Dmn.Lexer Dmn.Lalr
+
+/-- `parse_longest_name_no_panic`: for every input text, every behaviour of the reduce actions (their
+verdicts `act`, the lexer flags `fb` they leave before each call of the lexer), every number of lexer
+calls and loop iterations: no call of the lexer panics and the loop over its answers has no panic — no
+`consumed_positions[i]` out of bounds, no table access out of bounds, no arithmetic overflow, no empty
+state stack. -/
+theorem parse_longest_name_no_panic (act : Nat → Int → Bool) (fb : Nat → Option Flags) (limit fuel : Nat)
+    (input : List Nat) :
+    parseLongestName act fb limit fuel input ≠ .lexerPanic ∧
+    ∀ s, parseLongestName act fb limit fuel input ≠ .parsed (.panic s) := by
+  obtain ⟨ts, hts, hmem⟩ := answers_some fb limit 0 (initLx input)
+  unfold parseLongestName
+  rw [hts]
+  refine ⟨(by intro h; cases h), ?_⟩
+  intro s h
+  injection h with h
+  exact Dmn.Lalr.lalr_no_panic act fuel ts hmem s h
+
+-- non-vacuity: ` Full   Name ` is the name `Full Name`, `a+b` the name `a+b`; `1a` is not a name
+example : loneName [32, 70, 117, 108, 108, 32, 32, 32, 78, 97, 109, 101, 32] = some [70, 117, 108, 108, 32, 78, 97, 109, 101] ∧
+    loneName [97, 43, 98] = some [97, 43, 98] ∧ loneName [49, 97] = none := by
+  decide
+
+end Dmn.LongestName
